@@ -1328,6 +1328,37 @@ class Run:
             key = how.split(':')[1] if ':' in how else keys[arg % len(keys)]
             doc.pop(key, None)
             new = _gz.compress(_json.dumps(doc).encode())
+        elif how in ('gz-nested', 'clean-gz-nested'):
+            # one field of one (nested) operation record gets a value of the
+            # wrong type: output file names that are not strings, a missing
+            # list of suboperations, an unknown comparison kind
+            doc = _json.loads(_gz.decompress(data).decode())
+            recs_ = []
+
+            def walk_(ops):
+                for o in ops:
+                    if isinstance(o, dict):
+                        recs_.append(o)
+                        walk_(o.get('suboperations') or [])
+            walk_(doc.get('rootOperations') or [])
+            cands = []
+            for o in recs_:
+                if 'suboperations' in o:
+                    cands.append((o, 'suboperations', None))
+                # (records of calls that failed in setup are not indexed when
+                # the cache is loaded; their file names are never looked at)
+                if o.get('type') == 'build_file' and \
+                        not o.get('setupFailed'):
+                    cands.append((o, 'filename', None))
+                    cands.append((o, 'filename', 5))
+                    cands.append((o, 'fileComparison', 'FOO'))
+            if not cands:
+                self.load_state(state)
+                self.log.append(['refuse', i, how, 'skipped'])
+                return
+            o, fld, val = cands[arg % len(cands)]
+            o[fld] = val
+            new = _gz.compress(_json.dumps(doc).encode())
         elif how == 'gz-null':
             new = _gz.compress(b'null')
         elif how == 'gz-string':
@@ -1392,9 +1423,9 @@ class Run:
         elif how == 'dir-at-cache':
             expect = 'IsADirectoryError'
         elif how.startswith(('trunc', 'gz-', 'not-gzip', 'clean-trunc',
-                             'clean-not-gzip')):
+                             'clean-not-gzip', 'clean-gz-nested')):
             expect = 'RuntimeError'
-            if how == 'gz-missing-keys' or 'drop' in how:
+            if how == 'gz-missing-keys' or 'drop' in how or 'nested' in how:
                 expect = None       # any exception, before any effect
         self.sim.reset(sandbox=sb, listdir_seed=self.cfg.get('listdir_seed'))
         self.sim.phase = 'clean'
